@@ -10,7 +10,7 @@ NOTE = ('Trusted: Lean 4.33 kernel with axioms propext, Classical.choice, Quot.s
 
 CLAIMS = {
     'C01': dict(engine='pegdiff', ref='6 C01',
-                text='Lean theorems: C01_sound / C01_sound_expr (the model of the generated parser, with any memo set, computes the answer of the reference PEG semantics Spec.eval: acceptance, tree, consumed bytes, for every grammar, rule, input), C01_complete (converse), C01_unique (the PEG answer is unique), C01_exactly_the_peg_language (the functional reference = the big-step PEG relation Sem, one constructor per rule), C01_terminates / C01_terminates_impl (every grammar passing the decidable well-formedness check wfCheck – refs defined, no include cycle, no closure over a nullable body, a rank decreasing along left-call edges – answers every rule on every input; grammar.ebnf as extracted passes it), the PEG laws of Spec, terminal readings of every matcher at character level (Boundary.lean). Tie: pegdiff correspondence on generated grammars/inputs + exhaustive matcher table.',
+                text='Lean theorems: C01_sound / C01_sound_expr (the model of the generated parser, with any memo set, computes the answer of the reference PEG semantics Spec.eval: acceptance, tree, consumed bytes, for every grammar, rule, input), C01_complete (converse), C01_unique (the PEG answer is unique), C01_exactly_the_peg_language (the functional reference = the big-step PEG relation Sem, one constructor per rule), C01_terminates / C01_terminates_impl (every grammar passing the decidable well-formedness check wfCheck – refs defined, no include cycle, no closure over a nullable body, a rank decreasing along left-call edges – answers every rule on every input; grammar.ebnf as extracted passes it), C01_sound_leftrec / C01_complete_leftrec / C01_iff_leftrec (grammars with @leftrec rules in the decidable class LROk: the model answers exactly what the reference semantics with left recursion SpecLR answers), the PEG laws of Spec, terminal readings of every matcher at character level (Boundary.lean). Tie: pegdiff correspondence on generated grammars/inputs + exhaustive matcher table.',
                 tech='Lean 4 refinement proof (model of generated parser = PEG reference semantics, both directions) + differential correspondence'),
     'C04': dict(engine='pegdiff+unitdiff', ref='6 C04',
                 text='Lean theorems: eval_boundary / C04_no_runtime_panic / C04_offsets_on_boundaries / C04_values_on_boundaries for the whole evaluator (every state, error position, @position range and @string slice is on a UTF-8 boundary inside the input; advance never overruns), per-matcher boundary theorems, necessity of the ASCII guard. Tie: pegdiff with cfg assertion in advance + is_char_boundary on all observed offsets; exhaustive matcher table.',
